@@ -65,6 +65,10 @@ func (c *ContentTypeMismatchError) Error() string {
 	return fmt.Sprintf("content type mismatch: got %q, want %q", c.Got, c.Want)
 }
 
+// maxPrealloc is the largest declared content length for which Recv allocates
+// the whole receive buffer before reading the payload.
+const maxPrealloc = 1 << 20
+
 // An hdr implements Channel. Messages sent on a hdr channel are framed as a
 // header/body transaction, similar to HTTP.
 type hdr struct {
@@ -139,6 +143,18 @@ func (h *hdr) Recv() ([]byte, error) {
 	// We need to use ReadFull here because the buffered reader may not have a
 	// big enough buffer to deliver the whole message, and will only issue a
 	// single read to the underlying source.
+	if size > maxPrealloc {
+		// Do not trust a large declared length for allocation: grow the
+		// buffer only as the payload actually arrives.
+		var buf bytes.Buffer
+		if _, err := io.CopyN(&buf, h.rd, int64(size)); err == io.EOF {
+			return nil, io.ErrUnexpectedEOF
+		} else if err != nil {
+			return nil, err
+		}
+		h.rbuf = nil
+		return buf.Bytes(), contentErr
+	}
 	data := h.rbuf
 	if len(data) < size || len(data) > (1<<20) && size < len(data)/4 {
 		data = make([]byte, size*2)
